@@ -237,6 +237,16 @@ func TestCluster(t *testing.T) {
 			m := &mesh{t: t, nodes: map[string]*node{}, agInst: map[string]*node{}, part: map[string]int{}, rng: rng}
 			m.cfg = scenCfg{T: []timers{{10 * time.Second, time.Minute, 4 * time.Minute}, {30 * time.Second, 5 * time.Minute, 20 * time.Minute}, {5 * time.Second, 30 * time.Second, 2 * time.Minute}}[rng.Intn(3)],
 				Integs: mkIntegs([]string{"webhook"}, []bool{true})}
+			// a third of the clusters route through child routes (an alert in several groups, a second receiver)
+			switch rng.Intn(6) {
+			case 0:
+				m.cfg.Routes = []routeCfg{{Sel: "G1", Cont: true, Recv: "r2", T: m.cfg.T}, {Sel: "ALL", Recv: "r1", T: m.cfg.T}}
+			case 1:
+				m.cfg.Routes = []routeCfg{{Sel: "AX", Cont: true, Recv: "r1", T: m.cfg.T, GBy: "none"}, {Sel: "CRIT", Recv: "r2", T: m.cfg.T}}
+			}
+			if len(m.cfg.Routes) > 0 {
+				m.cfg.R2 = []integ{{Kind: "webhook", Recv: "r2", Name: "webhook/0", SR: true}}
+			}
 			healthy := rng.Intn(2) == 0 // no faults at all: the strict no-duplicate regime
 			if healthy {
 				m.loss, m.maxDel = 0, 2*time.Second
